@@ -152,6 +152,10 @@ func NewDynUniverse(r *rand.Rand) *DynUniverse {
 	}
 	forms = append(forms, "#/$defs/cand", uri(r.IntN(n))+"#/$defs/cand")
 	u.Final = Pick(r, forms)
+	if strings.HasSuffix(u.Final, "#node") && r.IntN(5) == 0 {
+		// the same reference with unreserved characters of the fragment percent-encoded (RFC 3986 6.2.2.2: equivalent)
+		u.Final = strings.TrimSuffix(u.Final, "node") + Pick(r, []string{"%6Eode", "nod%65", "%6E%6F%64%65", "n%6fde"})
+	}
 	fin := map[string]any{"$dynamicRef": u.Final}
 	var shape []string
 	// decoy: a further resource that declares the dynamic anchor and accepts only its own marker. Hops may first send the
